@@ -25,7 +25,7 @@ def gen_history(seed):
     for _ in range(nworkers - 1):
         v2 = [[t, i, r.choice([0, 1, 2, 3])] for t, i, _ in vec]
         vecs.append(v2)
-    mixed = r.random() < 0.25  # requests mixing `any` and a specific id of one type
+    mixed = r.random() < 0.10  # requests mixing `any` and a specific id of one type
     ops = []
     n = r.randint(4, 25)
 
@@ -87,15 +87,25 @@ def run_history(case):
     return _run_W(case)
 
 
+def has_mixed(case):
+    """does the history contain a request naming `any` and a specific id of one resource type?"""
+    def mx(req):
+        return len({k.split(":")[0] for k in req}) < len(req)
+    return any(mx(st["req"]) for st in case["strategies"]) or \
+        any(o[0] == "allocate_multiple" and mx(o[1]) for o in case["ops"])
+
+
 class _V:
-    def __init__(self):
+    def __init__(self, case=None):
         self.violations = []
         self.probes = {}
+        self.mixed = has_mixed(case) if case else False
 
     def vio(self, oracle, detail, cause=None):
         if not any(v["oracle"] == oracle for v in self.violations):
-            self.violations.append({"property": "C04", "oracle": oracle, "detail": detail,
-                                    "cause": cause or {}})
+            cause = dict(cause or {})
+            cause["mixed_any_and_specific_request"] = self.mixed
+            self.violations.append({"property": "C04", "oracle": oracle, "detail": detail, "cause": cause})
 
     def probe(self, k):
         self.probes[k] = self.probes.get(k, 0) + 1
@@ -159,7 +169,7 @@ def _run_R(case):
     from workload import Job, Resource, Resources, Task
     from utils import EventTime
 
-    V = _V()
+    V = _V(case)
     keys = [tuple(x) for x in case["vecs"][0]]
     res = Resources(resource_vector={Resource(name=t, _id=i): q for t, i, q in keys})
     job = Job(name="j")
@@ -322,7 +332,7 @@ def _run_W(case):
     from workload import (BatchStrategy, ExecutionStrategies, ExecutionStrategy, Job, Resource, Resources,
                           Task, WorkProfile)
 
-    V = _V()
+    V = _V(case)
     US = lambda x: EventTime(x, EventTime.Unit.US)  # noqa
     vecs = case["vecs"]
     workers = []
